@@ -180,6 +180,12 @@ theorem print_parse_fixpoint (p : Program Name) (hw : WellFormed p) :
   simp [printProgram, printProgramTokens, termPrintable_relabel, termPrintable_of_ok p.term h'.2,
     printTerm_relabel]
 
+/-- a scope-free sufficient condition for `NamesConsistent`: over the whole program, text and unique
+determine each other — what `debruijn_to_name` (text `i_<unique>`, used by `aiken uplc decode` and the
+`--uplc` dump) and the parser's interner produce -/
+theorem names_bijective_consistent (p : Program Name) (h : namesBijective p = true) : NamesConsistent p :=
+  namesConsistent_of_bijective p h
+
 /-- a non-trivial program satisfying both hypotheses: shadowing, constr/case, a nested constant -/
 def sample : Program Name :=
   ⟨(1, 1, 0), .lam ⟨"x", 7⟩ (.lam ⟨"y", 3⟩ (.lam ⟨"x", 7⟩
